@@ -119,7 +119,7 @@ impl Scenario for CryptSc {
                 p.faults.push(Step::new("perturb", &[x.below(24) as i64, x.below(1 << 24) as i64]));
             }
             "tl-tamper" => {
-                p.faults.push(Step::new("perturb", &[x.below(18) as i64, x.below(1 << 24) as i64]));
+                p.faults.push(Step::new("perturb", &[x.below(20) as i64, x.below(1 << 24) as i64]));
             }
             "sc-bitflip-all" | "tl-bitflip-all" => {
                 p.set("len", *x.pick(&[0i64, 1, 5, 29, 30, 31, 32, 33, 40]));
@@ -757,13 +757,22 @@ fn tl_tamper(plan: &Plan, lib: &dyn Lib, rec: &mut Rec, all_bits: bool) {
     let mut f = orig.clone();
     let up = Pt::from_bytes(&f.u).unwrap();
     let k = refimpl::scalar_from_u64(2 + salt % 500);
-    let label: &'static str = match mode % 18 {
+    let label: &'static str = match mode % 20 {
+        18 | 19 => {
+            // the continuation bit set on the first k bytes of w: a length prefix that never terminates (k >= 19),
+            // or one that swallows message / padding bytes (k < 19)
+            let k = if mode % 20 == 18 { *x.pick(&[19usize, 19, 20, 32]) } else { *x.pick(&[1usize, 2, 3, 10, 18]) };
+            for b in f.w.iter_mut().take(k) {
+                *b ^= 0x80;
+            }
+            "w-continuation-bits-set"
+        }
         16 | 17 => {
             // someone who knows the plaintext rewrites the (unauthenticated-by-itself) length prefix in place:
             // w' = w xor P xor P', P' = varint(V) over the leading bytes, V around a width boundary of the length arithmetic
             let sh = *x.pick(&[7u32, 14, 21, 31, 32, 63, 64, 127, 128]);
             let base: u128 = if sh == 128 { 0 } else { 1u128 << sh };
-            let off = if mode % 18 == 16 { x.below(3) as i128 - 1 } else { x.below(49) as i128 - 24 };
+            let off = if mode % 20 == 16 { x.below(3) as i128 - 1 } else { x.below(49) as i128 - 24 };
             let v = if off < 0 { base.wrapping_sub((-off) as u128) } else { base.wrapping_add(off as u128) };
             let newp = refimpl::leb128(v);
             let mut plain = refimpl::leb128(msg.len() as u128);
@@ -794,7 +803,7 @@ fn tl_tamper(plan: &Plan, lib: &dyn Lib, rec: &mut Rec, all_bits: bool) {
         _ => { for b in f.w.iter_mut().skip(auth) { *b ^= 0xff; } "w-padding-inverted" }
     };
     rec.fault("byz-relay");
-    rec.case(&[13, g as u64, scheme as u64, mode as u64 % 18, (msg.len() > 31) as u64, 2], true);
+    rec.case(&[13, g as u64, scheme as u64, mode as u64 % 20, (msg.len() > 31) as u64, 2], true);
     let mut c = Courier::new(plan.seed, 2);
     for r in c.ship(0, 1, K_CT, 0, vec![f.build()]) {
         judge(rec, &r.parts[0], label);
